@@ -232,11 +232,13 @@ pub struct CliOpts {
     pub stdout_pipe: bool,
     // Repeat a run that hit the time limit once with six times the limit.
     pub patient: bool,
+    // Run under `prlimit --as=4GiB` (programs not vetted by the reference).
+    pub mem_limit: bool,
 }
 
 impl Default for CliOpts {
     fn default() -> CliOpts {
-        CliOpts{timeout: Duration::from_secs(5), arg: None, cwd: None, env: vec![], stdin_closed: false, stdin_pipe: false, stdout_pipe: false, patient: true}
+        CliOpts{timeout: Duration::from_secs(5), arg: None, cwd: None, env: vec![], stdin_closed: false, stdin_pipe: false, stdout_pipe: false, patient: true, mem_limit: false}
     }
 }
 
@@ -267,7 +269,13 @@ fn run_cli_once(dir: &Path, opts: &CliOpts) -> Obs {
     let err_path = dir.join("stderr.bin");
     let out_f = fs::File::create(&out_path).expect("stdout file");
     let err_f = fs::File::create(&err_path).expect("stderr file");
-    let mut c = Command::new(cli_bin());
+    let mut c = if opts.mem_limit && Path::new("/usr/bin/prlimit").exists() {
+        let mut c = Command::new("/usr/bin/prlimit");
+        c.arg("--as=4294967296").arg(cli_bin());
+        c
+    } else {
+        Command::new(cli_bin())
+    };
     c.arg(opts.arg.clone().unwrap_or_else(|| "case.sd".to_string()));
     c.current_dir(opts.cwd.clone().unwrap_or_else(|| dir.to_path_buf()));
     c.env_clear();
@@ -281,17 +289,13 @@ fn run_cli_once(dir: &Path, opts: &CliOpts) -> Obs {
     } else {
         c.stdout(out_f).stderr(err_f);
     }
-    {
-        // The child may not take the machine down: 4 GiB of address space.
-        let close_stdin = opts.stdin_closed;
+    // (No pre_exec in the common case: it would force fork+exec of this
+    // large multi-threaded process instead of posix_spawn, ten times slower.)
+    if opts.stdin_closed {
         unsafe {
             use std::os::unix::process::CommandExt;
-            c.pre_exec(move || {
-                let lim = libc::rlimit{rlim_cur: 4 << 30, rlim_max: 4 << 30};
-                libc::setrlimit(libc::RLIMIT_AS, &lim);
-                if close_stdin {
-                    libc::close(0);
-                }
+            c.pre_exec(|| {
+                libc::close(0);
                 Ok(())
             });
         }
